@@ -734,6 +734,41 @@ func keystoreCase(c *ev.Case) {
 		c.Violation("keystore:decrypted-key-signs-differently", "the decrypted key does not produce the same valid signature", wit)
 		return
 	}
+	// the key object the caller stored is still the caller's key: it signs as
+	// before, and storing it a second time (other password) stores the same key
+	if s1, s3 := prv.Sign(msg), key.XPrv.Sign(msg); !bytes.Equal(s1, s3) || key.XPub != pub {
+		wit["key_object_xprv_after_store"] = hx(key.XPrv[:])
+		c.Violation("keystore:stored-key-object-signs-differently", "after EncryptKey the caller's key object no longer produces the same signature", wit)
+		return
+	}
+	if !sp.light {
+		pw2 := pwClasses[rng.Intn(len(pwClasses))].gen(rng)
+		var js2 []byte
+		var k4 *pseudohsm.XKey
+		wit["second_password_hex"] = hx([]byte(pw2))
+		if guard(c, "EncryptKey(second)", wit, func() { js2, err = pseudohsm.EncryptKey(key, pw2, sp.n, sp.p) }) {
+			return
+		}
+		if err == nil {
+			wit["second_keyjson"] = string(js2)
+			if guard(c, "DecryptKey(second)", wit, func() { k4, err = pseudohsm.DecryptKey(js2, pw2) }) {
+				return
+			}
+		}
+		c.Eval(1)
+		if err != nil || k4 == nil {
+			c.Violation("keystore:second-store:right-password-rejected", "the same key object stored a second time does not decrypt with its password: "+fmt.Sprint(err), wit)
+			return
+		}
+		if s1, s4 := prv.Sign(msg), k4.XPrv.Sign(msg); k4.XPrv != prv || k4.XPub != pub || !bytes.Equal(s1, s4) {
+			wit["decrypted_xprv"] = hx(k4.XPrv[:])
+			c.Violation("keystore:second-store:decrypted-key-differs", "the same key object stored a second time decrypts to another key", wit)
+			return
+		}
+		c.Count("keystore_second_store_ok", 1)
+		delete(wit, "second_keyjson")
+		delete(wit, "second_password_hex")
+	}
 	lt := "fast-params"
 	if sp.light {
 		lt = "light-params"
@@ -1067,6 +1102,7 @@ func TestC28(t *testing.T) {
 	r.Floor("verify_rejected:pubkey-bit-flip", q(nDerQ*18, nDerT*18))
 	r.Floor("keystore_roundtrip_ok:fast-params", q(nKsQ*14/16, nKsT*14/16))
 	r.Floor("keystore_roundtrip_ok:light-params", q(nKsQ/17, nKsT/17))
+	r.Floor("keystore_second_store_ok", q(nKsQ*14/16, nKsT*14/16))
 	for _, w := range []string{"empty", "one-bit", "prefix", "suffix-added", "trailing-space", "unrelated"} {
 		r.Floor("wrong_password_rejected:"+w, q(nKsQ/2, nKsT/2))
 	}
